@@ -51,18 +51,54 @@ def _on_vtalrm(signum, frame):
 
 
 class budget:
-    """with budget(seconds): ... raises BudgetExceeded when CPU time runs out."""
+    """with budget(seconds): ... raises BudgetExceeded when CPU time runs out. Budgets nest: an inner budget never
+    outlives the outer one, and leaving it re-arms what is left of the outer one."""
 
     def __init__(self, seconds):
         self.seconds = seconds
 
     def __enter__(self):
         signal.signal(signal.SIGVTALRM, _on_vtalrm)
-        signal.setitimer(signal.ITIMER_VIRTUAL, self.seconds)
+        self.outer = signal.getitimer(signal.ITIMER_VIRTUAL)[0]
+        self.armed = min(self.seconds, self.outer) if self.outer else self.seconds
+        signal.setitimer(signal.ITIMER_VIRTUAL, self.armed)
 
     def __exit__(self, *a):
-        signal.setitimer(signal.ITIMER_VIRTUAL, 0)
+        left = signal.getitimer(signal.ITIMER_VIRTUAL)[0]
+        if self.outer:
+            signal.setitimer(signal.ITIMER_VIRTUAL, max(self.outer - (self.armed - left), 0.001))
+        else:
+            signal.setitimer(signal.ITIMER_VIRTUAL, 0)
         return False
+
+
+SHARD_WALL_S = 3600  # wall-clock watchdog per shard: an execution blocked outside the CPU (waiting for input) never
+#                      uses up a CPU budget
+
+
+def _on_alrm(signum, frame):
+    raise BudgetExceeded("wall clock")
+
+
+class wall_budget:
+    def __init__(self, seconds):
+        self.seconds = seconds
+
+    def __enter__(self):
+        signal.signal(signal.SIGALRM, _on_alrm)
+        signal.setitimer(signal.ITIMER_REAL, self.seconds)
+
+    def __exit__(self, *a):
+        signal.setitimer(signal.ITIMER_REAL, 0)
+        return False
+
+
+def detach_stdin():
+    """Nothing the checks run may wait for the terminal: file descriptor 0 becomes /dev/null (an implementation that
+    reads the process's real standard input sees end of file instead of blocking)."""
+    fd = os.open(os.devnull, os.O_RDONLY)
+    os.dup2(fd, 0)
+    os.close(fd)
 
 
 # ----------------------------------------------------------------------------
@@ -180,7 +216,7 @@ def _worker(shard):
     cov = _cov_start()
     try:
         try:
-            with budget(SHARD_BUDGET_S):
+            with wall_budget(SHARD_WALL_S), budget(SHARD_BUDGET_S):
                 _MOD.run_shard(shard, acc)
         except BudgetExceeded:
             # the exploration of this shard did not finish: some execution (implementation or harness) does not
@@ -252,8 +288,8 @@ def check_one(mod, sub, case):
 def minimise(mod, v, max_steps=400):
     """Deterministic greedy shrinking by re-exploration of sub-cases."""
     shrink = getattr(mod, "shrink", None)
-    if shrink is None:
-        return v
+    if shrink is None or v["sub"] == "runner":
+        return v  # (a runner-level witness is a whole shard: nothing for the property's shrinker to work on)
     steps = 0
     progress = True
     t_stop = time.time() + 3.0  # per-witness wall budget
@@ -298,6 +334,9 @@ def minimise_all(mod, acc):
 
 def signature(mod, v):
     f = getattr(mod, "signature", None)
+    if v["sub"] == "runner":
+        obs = v.get("observed")
+        return "%s.runner.%s.%s" % (mod.ID, v["kind"], (_exc_class(obs) or "") if isinstance(obs, str) else "")
     if f is not None:
         s = f(v["sub"], v["case"], v)
         if s:
@@ -414,6 +453,7 @@ def write_replay(prop, v, tier, how):
 def replay_file(path):
     with open(path) as f:
         r = json.load(f)
+    detach_stdin()
     bind_repo()
     mod = load_prop(r["property"])
     return check_one(mod, r["subcheck"], r["case"])
@@ -429,6 +469,7 @@ def load_prop(prop):
 def run(prop, tier, seed):
     global _MOD
     t0 = time.time()
+    detach_stdin()
     jp = bind_repo()
     mod = load_prop(prop)
     _MOD = mod
